@@ -178,6 +178,10 @@ class PRODEngine(Engine):
             return ["send", ti, draw(st.sampled_from([-1, -1, 0, 1, 2])), spec]
 
         warm = [send(), ["run", 30]]
+        if kind == "unroutable":
+            # several sends to a topic that does not exist, close together (their partition lookups overlap), then a good one
+            nosuch = ["send", len(self.tnames), -1, "t"]
+            return [nosuch, nosuch, ["send", len(self.tnames), 0, "tt"], nosuch, ["run", draw(st.integers(4, 30))], send(), ["run", 30], ["timer"], ["run", 20], ["timer"], ["run", 20]]
         if kind == "partial":
             # several partitions in one batch, an error code on one of them for the next k attempts
             p = draw(st.integers(0, nparts - 1))
@@ -988,6 +992,13 @@ class PRODEngine(Engine):
         else:
             self._quiet_phase()
         if not self.stopped:
+            # C01: a send to a topic that does not exist fails with an exception - within the attempt budget, not never
+            bound = 12 * self.timeout * max(self.config["max_attempts"], 1) + 60.0
+            for s in self.sends:
+                if s.topic not in self.tnames and s.watch is not None and s.watch.state == "pending" and s.cancelled_at is None and w.now - s.time > bound - 1e-6:
+                    self.note("C01.unroutable-fails", "C01.unroutable-send-never-failed", "send #%d to the unknown topic %r was issued %.0f virtual seconds ago (faults lifted, attempt limit %r) and has neither failed nor succeeded" % (
+                        s.no, s.topic, w.now - s.time, self.config["max_attempts"]))
+                    break
             self._do_stop()
             self.raise_noted()
         quiet = self._quiet_phase()
